@@ -66,6 +66,7 @@ type drv struct {
 	debug bool
 	bg    context.Context
 	t     *trace
+	need  map[string]int // situations the run still owes (see scen.go addK)
 }
 
 func must(err error) {
@@ -152,7 +153,7 @@ func Run(a vc.Args) {
 	rc := rec.New(a.Out)
 	defer rc.Close()
 	mc := mw.MC
-	d := &drv{mw: mw, mc: mc, rc: rc, a: a, debug: os.Getenv("VERIF_DEBUG") != ""}
+	d := &drv{mw: mw, mc: mc, rc: rc, a: a, debug: os.Getenv("VERIF_DEBUG") != "", need: map[string]int{}}
 	if mc.RoundRestartMult() != restartMult || mc.GetNotarizationThresholdCount(nMiners) != 3 || mw.MagicBlock.T != 3 ||
 		mc.GetGeneratorsNumOfRound(1) != 2 {
 		rec.Fatal("configuration not applied: restart mult %d, notarization threshold %d, T %d, generators %d",
@@ -195,6 +196,15 @@ func Run(a vc.Args) {
 			continue
 		}
 		rc.TraceID = id - 1
+		// what this history owes is a function of its position only (a trace re-executed alone is the same trace)
+		switch i % 3 {
+		case 0:
+			d.need = map[string]int{"restart": 1, "badshare": 1, "nz": 1}
+		case 1:
+			d.need = map[string]int{"progress": 1} // a mostly cooperative environment, long enough to finalize blocks
+		default:
+			d.need = map[string]int{"forged": 1, "lag": 1, "nz": 1}
+		}
 		d.runTrace(id, vc.TraceRand(a.Seed, id))
 	}
 }
